@@ -2,14 +2,14 @@ SPECIFICATION Spec
 CONSTANTS Keys = {"k0", "k1"}
           Self = "k0"
           Vals = {"A"}
-          Lives = {2, 4}
+          Lives = {2}
           TTLs = {3}
           DefTTL = 3
           L = 2
           Interval = 2
           Initial = 1
           FailRetry = 1
-          MaxT = 6
+          MaxT = 4
           MaxSeq = 1
           MaxOps = 3
           MaxRounds = 0
